@@ -4,16 +4,20 @@ import tlc
 
 CONFIGS = {
     'quick': [('money', '{"c1","c2"}', '{}', 4, 7), ('money3', '{"c1","c2","c3"}', '{}', 3, 5),
-              ('generic', '{}', '{"f1","f2","f3"}', 1, 6), ('mixed', '{"c1"}', '{"f1","f2"}', 2, 5)],
+              ('norate', '{"c1","c4"}', '{}', 3, 6),
+              ('generic', '{}', '{"f1","f2","f3"}', 1, 6), ('generic4', '{}', '{"f1","f3","f4"}', 1, 6),
+              ('mixed', '{"c1"}', '{"f1","f2"}', 2, 5)],
     'thorough': [('money', '{"c1","c2"}', '{}', 5, 9), ('money3', '{"c1","c2","c3"}', '{}', 4, 7),
-                 ('generic', '{}', '{"f1","f2","f3"}', 1, 9), ('mixed', '{"c1","c2"}', '{"f1","f2"}', 3, 6)],
+                 ('norate', '{"c1","c2","c4"}', '{}', 4, 7),
+                 ('generic', '{}', '{"f1","f2","f3"}', 1, 9), ('generic4', '{}', '{"f1","f2","f3","f4"}', 1, 8),
+                 ('mixed', '{"c1","c2"}', '{"f1","f2"}', 3, 6)],
 }
 
 
 def run(ctx):
     ctx.rule = ('every sequence (up to the step bound) over {register c, unregister c, enter c, leave normally, leave by '
                 'exception} for 2-3 money converters with distinct rates and {register f, remove f} for 3 generic '
-                'converter callables (one always declining); every transition of the TLC state graph executed in the '
+                'converter callables (one always declining), a money converter without a rate for the probed pair; every transition of the TLC state graph executed in the '
                 'real library with real with-statements; after each step list(registered_converters()), the probe '
                 'conversion (which identifies the converter used) and the raised/not-raised outcome are compared.')
     ctx.assumptions = ['stack depth bounded by the configuration']
